@@ -375,4 +375,76 @@ def movieTop (P : Nat) (sqrt lg : α → α) (le : L → L → Bool) (o : MovieO
 
 end full
 
+/-! ### memory: which array a call writes to (round 4)
+
+`calc_rdm` is handed a `Dataset` *object*; an estimator that centres or normalises its working
+array in place modifies the caller's data iff that array is the dataset's own `measurements`.
+The state below is the content of `dataset.measurements` (labels / descriptors are never
+written by the modelled code); a *session* is a sequence of calls on the same object. -/
+
+section memory
+variable {α : Type} [Add α] [Sub α] [Mul α] [Div α] [Neg α] [Zero α] [One α] [NatCast α]
+  [LT α] [DecidableLT α] [LE α] [DecidableLE α] [Max α] [Min α]
+variable {L : Type} [DecidableEq L]
+
+/-- the working array of an estimator: its rows, and whether it *is* the dataset's own array -/
+structure Work (α : Type) where
+  rows : List (Row α)
+  shared : Bool
+
+/-- `_parse_input` with respect to memory, as coded.  `data` = `dataset.measurements`, `means` =
+    the buffer `average_dataset_by` allocates.  Leaves: `parseShares` (is the working array of
+    the branch the dataset's own array?), `centreInPlace` (does the centring statement write into
+    the working array, or bind a new one?).  Result: working array, `dataset.measurements`
+    afterwards. -/
+def parseMem (P : Nat) (hasDesc flag : Bool) (data means : List (Row α)) :
+    Work α × List (Row α) :=
+  let w : Work α := if hasDesc then ⟨means, Rsa.Gen.C01.parseShares 1 = 1⟩
+    else ⟨data, Rsa.Gen.C01.parseShares 0 = 1⟩
+  if flag then
+    if Rsa.Gen.C01.centreInPlace = 1 then
+      (⟨prep P true w.rows, w.shared⟩, if w.shared then prep P true w.rows else data)
+    else (⟨prep P true w.rows, false⟩, data)
+  else (w, data)
+
+/-- what estimator `est` leaves in its working array when it writes to it in place (leaf
+    `estWrites`); only `calc_rdm_correlation` has such a statement: `ma /= norm` -/
+def estWritten (P : Nat) (sqrt : α → α) (est : Nat) (rows : List (Row α)) : List (Row α) :=
+  match est with
+  | 1 => rows.map (unitRowRaw P sqrt)
+  | _ => rows
+
+/-- `dataset.measurements` after one estimator call -/
+def callMem (P : Nat) (sqrt : α → α) (est : Nat) (hasDesc : Bool) (flag : Nat)
+    (data means : List (Row α)) : List (Row α) :=
+  let pm := parseMem P hasDesc (flag == 1) data means
+  if Rsa.Gen.C01.estWrites est = 1 ∧ pm.1.shared = true then estWritten P sqrt est pm.1.rows
+  else pm.2
+
+/-- one call of a session: the options and whether a condition descriptor is passed -/
+structure Call (α : Type) where
+  opts : Opts α
+  hasDesc : Bool
+
+/-- the condensed vector a call returns when the object's array currently holds `rows` -/
+def Call.result (P : Nat) (sqrt lg : α → α) (lab : List L) (c : Call α) (rows : List (Row α)) :
+    Option (List α) :=
+  topVec P sqrt lg c.opts (if c.hasDesc then condMeans (lab.zip rows) else rows)
+
+/-- the object's array after the call -/
+def Call.after (P : Nat) (sqrt : α → α) (lab : List L) (c : Call α) (rows : List (Row α)) :
+    List (Row α) :=
+  callMem P sqrt (Rsa.Gen.C01.dispatch c.opts.method) c.hasDesc
+    (Rsa.Gen.C01.parseFlag c.opts.method (b2n c.opts.removeMean)) rows (condMeans (lab.zip rows))
+
+/-- successive calls on ONE dataset object: every call sees what the earlier ones left -/
+def runSession (P : Nat) (sqrt lg : α → α) (lab : List L) :
+    List (Call α) → List (Row α) → List (Option (List α)) × List (Row α)
+  | [], rows => ([], rows)
+  | c :: cs, rows =>
+    let rest := runSession P sqrt lg lab cs (c.after P sqrt lab rows)
+    (c.result P sqrt lg lab rows :: rest.1, rest.2)
+
+end memory
+
 end Rsa.Calc
